@@ -266,6 +266,16 @@ func c14decorate(r *mon.Rand, k *cose.Key, permitOps bool) string {
 		k.Params["note"] = "extra"
 		name += "extra,"
 	}
+	if r.Intn(4) == 0 {
+		// an application parameter under a small negative label that means nothing for this key type (-3 is
+		// y for EC2 keys only, -5/-6 nothing at all), of any length: extra parameters are carried along
+		if k.Type == cose.KeyTypeOKP {
+			k.Params[int64(-3)] = r.Bytes(mon.Pick(r, 1, 31, 33, 40, 66, 100))
+			name += "extra-under-label-minus-3,"
+		}
+		k.Params[int64(-5-r.Intn(3))] = r.Bytes(mon.Pick(r, 1, 33, 67, 200))
+		name += "extra-small-negative-label,"
+	}
 	if r.Intn(3) == 0 {
 		// text labels and values of any well-formed UTF-8 content
 		k.Params[gen.TextValue(r)+"-label"] = gen.TextValue(r)
